@@ -1,80 +1,90 @@
-"""Protobuf <-> AST expression conversions (C06.HOM.proto).
+"""Protobuf <-> AST conversions compose to the identity on (variant, field) (C06.HOM.proto).
 
-encode = <models::Expr as From<&ast::Expr>>::from, decode = <ast::Expr as TryFrom<models::Expr>>::try_from.
-For every AST variant V the encode arm builds one message kind PV whose fields are
-bound to fields of V; the decode arm of PV calls an AST constructor whose builder
-(map derived by constant propagation) builds V' from arguments that derive from
-message fields. The rule composes the two maps: V' = V, and every field g of V is
-rebuilt from a message field that was filled from V.g and from nothing else (no
-child dropped, duplicated or swapped on the way through the wire format).
+For an AST enum E and its wire form (a oneof `kind` enum whose payloads are message structs):
+encode = From<&E> for models::M, decode = TryFrom<models::M> for E. For every variant V of E the
+encode arm builds one message kind PV whose fields are bound to fields of V; the decode arm of PV
+rebuilds an E value — through an AST constructor (resolved with the derived builder map) or a direct
+aggregate — from message fields. The rule composes the two maps: the decoded variant is V again and
+every field g of V is rebuilt from a message field that was filled from V.g and from nothing else
+(no child dropped, duplicated or swapped on the way through the wire format).
 """
 from lib import hom, shape
 from lib.rulelib import get_fn
 
 P = "cedar_policy::proto::ast::<impl std::convert::"
+PP = "cedar_policy::proto::policy::<impl std::convert::"
 M = "cedar_policy::proto::models::cedar_policy_core::"
-ENC = P + "From<&cedar_policy_core::ast::Expr> for " + M + "Expr>::from"
-DEC = P + "TryFrom<" + M + "Expr> for cedar_policy_core::ast::Expr>::try_from"
-AST_KIND = "cedar_policy_core::ast::expr::ExprKind"
 AST_BUILDER = "cedar_policy_core::ast::expr::ExprBuilder<T>"
-# encode panics on these by design (documented: the wire format has no unknowns / error nodes)
-NOT_ENCODED = {"Unknown": "the protobuf format has no unknowns (documented unimplemented!)",
-               "Error": "error nodes never reach the protobuf encoder (documented unimplemented!)"}
 
 
-def ctor(c, t):
+def expr_ctor(c, t):
     for p in ("cedar_policy_core::ast::Expr::<T>::", "cedar_policy_core::ast::Expr::", "cedar_policy_core::ast::expr::Expr::<T>::", "cedar_policy_core::ast::expr::Expr::"):
         if c.startswith(p) and "::" not in c[len(p):]:
             return "S:" + c[len(p):]
     return None
 
 
-def msg_seed(p):
-    """a read of `msg.field` of a models::expr::<Msg> struct -> 'Msg#field'"""
-    out = []
-    for e in p[1:]:
-        if isinstance(e, list) and e[0] == "f" and e[3].startswith(M + "expr::") and not e[3].endswith("::ExprKind") and e[2]:
-            out.append("%s#%s" % (e[3].split("::")[-1], e[2]))
-    return out
+def make_msg_seed(msg_prefix, kind_adt):
+    def seed(p):
+        out = []
+        for e in p[1:]:
+            if isinstance(e, list) and e[0] == "f" and str(e[3]).startswith(msg_prefix) and e[3] != kind_adt and e[2]:
+                out.append("%s#%s" % (e[3].split("::")[-1], e[2]))
+        return out
+    return seed
 
 
-def check(chk, facts):
-    rule = "C06.HOM.proto"
-    fe = get_fn(chk, facts, rule, ENC)
-    fd = get_fn(chk, facts, rule, DEC)
+def compose(chk, facts, rule, tag, enc_name, dec_name, ast_adt, ast_suffix, kind_adt, msg_prefix, not_encoded, builder=None, dec_ctor=None, extra_ctors=None, floor=1):
+    """extra_ctors: {ctor label: (variant, {field: [param positions (2-based like builder maps)]})} for plain constructor fns."""
+    fe = get_fn(chk, facts, rule, enc_name)
+    fd = get_fn(chk, facts, rule, dec_name)
+    rk = facts.adts.get(ast_adt)
+    pk = facts.adts.get(kind_adt)
     if fe is None or fd is None:
         return
-    bm = hom.builder_map(facts, AST_BUILDER, ("ast::expr::ExprKind",))
-    msgs = tuple(a for a in facts.adts if a.startswith(M + "expr::") and a.count("::") == (M + "expr::X").count("::"))
-    enc = hom.arm_events(facts, fe, "ast::ExprKind", lambda c, t: None, include_aggs=msgs)
-    dec = hom.arm_events(facts, fd, "models::cedar_policy_core::expr::ExprKind", ctor, extra_seed=msg_seed)
-    rk = facts.adts.get(AST_KIND)
-    pk = facts.adts.get(M + "expr::ExprKind")
-    if enc is None or dec is None or rk is None or pk is None:
-        chk.lost(rule, "match on ExprKind in encode / decode")
+    if rk is None or pk is None:
+        chk.lost(rule, "%s / %s" % (ast_adt, kind_adt))
         return
+    bm = dict(builder or {})
+    for k, v in (extra_ctors or {}).items():
+        bm[k] = {"variant": v[0], "fields": v[1], "sig": "%s%s" % (v[0], v[1])}
+    msgs = tuple(a for a in facts.adts if a.startswith(msg_prefix) and a != kind_adt) + (kind_adt,)
+    enc = hom.arm_events(facts, fe, ast_suffix, lambda c, t: None, include_aggs=msgs)
+    ast_last = ast_adt.split("::")[-1]
+
+    def dctor(c, t):
+        if dec_ctor:
+            x = dec_ctor(c, t)
+            if x:
+                return x
+        return None
+    dec = hom.arm_events(facts, fd, kind_adt[len("cedar_policy::proto::"):], dctor, include_aggs=(ast_adt, ast_suffix), extra_seed=make_msg_seed(msg_prefix, kind_adt))
+    if enc is None or dec is None:
+        chk.lost(rule, "%s: match on the AST enum / the message kind" % tag)
+        return
+    kind_last = kind_adt.split("::")[-1]
     pv_index = {v["name"]: i for i, v in enumerate(pk["variants"])}
     n = 0
     used_pv = {}
     for vi, arm in sorted(enc["arms"].items()):
         vn = rk["variants"][vi]["name"]
-        afields = [x[0] for x in rk["variants"][vi]["fields"]]
-        kinds = [e for e in arm["events"] if e["ctor"].startswith("ExprKind::")]
-        if vn in NOT_ENCODED:
+        # source locations are not part of the wire format (and not of policy equality)
+        afields = [x[0] for x in rk["variants"][vi]["fields"] if "parser::loc::Loc" not in x[1]]
+        kinds = [e for e in arm["events"] if e["ctor"].startswith(kind_last + "::")]
+        if vn in not_encoded:
             n += 1
-            chk.ob(rule, "encode:%s" % vn, not kinds, "AST %s is not encoded: %s" % (vn, NOT_ENCODED[vn]), where=fe.where(), fn=fe.name, key="%s:enc:%s" % (rule, vn))
+            chk.ob(rule, "%s:encode:%s" % (tag, vn), not kinds, "%s::%s is not encoded: %s" % (ast_last, vn, not_encoded[vn]), where=fe.where(), fn=fe.name, key="%s:%s:enc:%s" % (rule, tag, vn))
             continue
         if len(kinds) != 1:
             n += 1
-            chk.ob(rule, "encode:%s" % vn, False, "the encode arm of %s builds %d message kinds (expected exactly one)" % (vn, len(kinds)), where=fe.where(), fn=fe.name, key="%s:enc:%s" % (rule, vn))
+            chk.ob(rule, "%s:encode:%s" % (tag, vn), False, "the encode arm of %s builds %d message kinds (expected exactly one)" % (vn, len(kinds)), where=fe.where(), fn=fe.name, key="%s:%s:enc:%s" % (rule, tag, vn))
             continue
         pv = kinds[0]["ctor"].split("::")[1]
-        structs = [e for e in arm["events"] if not e["ctor"].startswith("ExprKind::")]
-        # message field -> AST labels
+        structs = [e for e in arm["events"] if not e["ctor"].startswith(kind_last + "::") and e["fields"] and not e["ctor"].startswith(ast_last + "::")]
         if structs:
             if len(structs) != 1:
                 n += 1
-                chk.ob(rule, "encode:%s" % vn, False, "the encode arm of %s builds %d message structs" % (vn, len(structs)), where=fe.where(), fn=fe.name, key="%s:enc:%s" % (rule, vn))
+                chk.ob(rule, "%s:encode:%s" % (tag, vn), False, "the encode arm of %s builds %d message structs" % (vn, len(structs)), where=fe.where(), fn=fe.name, key="%s:%s:enc:%s" % (rule, tag, vn))
                 continue
             st = structs[0]
             mname = st["ctor"].split("::")[0]
@@ -85,33 +95,35 @@ def check(chk, facts):
         problems = []
         if prev != vn:
             problems.append("message kind %s is also used for %s" % (pv, prev))
-        # every AST field is written somewhere
         for g in afields:
             if not any(("%s.%s" % (vn, g)) in labs for labs in enc_map.values()):
                 problems.append("field %s is not written to the message" % g)
         darm = dec["arms"].get(pv_index.get(pv))
-        back = None
         dec_desc = None
         if darm is None:
             problems.append("decode has no arm for message kind %s" % pv)
         else:
-            evs = [e for e in darm["events"] if e["ctor"][2:] in bm]
+            evs = [e for e in darm["events"] if (e["ctor"][2:] in bm and e["ctor"].startswith("S:")) or e["ctor"].startswith(ast_last + "::")]
             if len(evs) != 1:
-                problems.append("the decode arm of %s calls %d AST constructors" % (pv, len(evs)))
+                problems.append("the decode arm of %s builds %d AST values" % (pv, len(evs)))
             else:
                 e = evs[0]
-                m = e["ctor"][2:]
-                b = bm[m]
-                dec_desc = m
-                if "undecided" in b:
-                    # ast record(): fallible builder with a loop; the constructor name decides the variant, its only argument is the child list
-                    back = {"Record": "Record"}.get(vn) if m == "record" else None
-                    fmap = {"0": [2]} if m == "record" else {}
-                    if back is None:
-                        problems.append("decode rebuilds with %s whose builder is not decidable" % m)
+                if e["ctor"].startswith(ast_last + "::"):
+                    back = e["ctor"].split("::")[1]
+                    dec_desc = "%s::%s{..}" % (ast_last, back)
+                    fmap = {str(fl): [i + 2] for i, fl in enumerate(e["fields"] or [])}
                 else:
-                    back = b["variant"]
-                    fmap = b["fields"]
+                    m = e["ctor"][2:]
+                    b = bm[m]
+                    dec_desc = m
+                    if "undecided" in b:
+                        back = {"Record": "Record"}.get(vn) if m == "record" else None
+                        fmap = {"0": [2]} if m == "record" else {}
+                        if back is None:
+                            problems.append("decode rebuilds with %s whose builder is not decidable" % m)
+                    else:
+                        back = b["variant"]
+                        fmap = b["fields"]
                 if back is not None and back != vn:
                     problems.append("decode(%s) builds %s" % (pv, back))
                 elif back is not None:
@@ -130,8 +142,41 @@ def check(chk, facts):
                         if not exact or foreign:
                             problems.append("field %s is decoded from %s which encode filled from %s" % (g, sorted(srcs), {pf: sorted(enc_map.get(pf, ())) for pf in sorted(srcs)}))
         n += 1
-        chk.ob(rule, "%s<->%s" % (vn, pv), not problems,
-               "AST %s is encoded as message %s and decoded with Expr::%s%s" % (vn, pv, dec_desc, (": " + "; ".join(problems)) if problems else " — same variant, every field back in place"),
-               where=fe.where(kinds[0]["line"]), fn=fe.name, key="%s:%s:%s" % (rule, vn, ";".join(problems)),
-               sample={"ast": vn, "message": pv, "encode": {k: sorted(v) for k, v in enc_map.items()}, "decode_ctor": dec_desc})
-    chk.floor(rule, "AST variants through the wire format", n, 17)
+        chk.ob(rule, "%s:%s<->%s" % (tag, vn, pv), not problems,
+               "%s::%s is encoded as message kind %s and decoded with %s%s" % (ast_last, vn, pv, dec_desc, (": " + "; ".join(problems)) if problems else " — same variant, every field back in place"),
+               where=fe.where(kinds[0]["line"]), fn=fe.name, key="%s:%s:%s:%s" % (rule, tag, vn, ";".join(problems)),
+               sample={"ast": vn, "message": pv, "encode": {k: sorted(v) for k, v in enc_map.items()}, "decode": dec_desc})
+    chk.floor(rule, "%s variants through the wire format" % tag, n, floor)
+
+
+def check(chk, facts):
+    rule = "C06.HOM.proto"
+    if chk.secondary and not any(x.startswith("cedar_policy::proto::") for x in facts.fns.index):
+        chk.ob(rule, "gated:cedar_policy::proto", True, "the protobuf module is not part of the default-feature build; decided on the experimental configuration")
+        return
+    bm = hom.builder_map(facts, AST_BUILDER, ("ast::expr::ExprKind",))
+    compose(chk, facts, rule, "Expr",
+            P + "From<&cedar_policy_core::ast::Expr> for " + M + "Expr>::from",
+            P + "TryFrom<" + M + "Expr> for cedar_policy_core::ast::Expr>::try_from",
+            "cedar_policy_core::ast::expr::ExprKind", "ast::ExprKind", M + "expr::ExprKind", M + "expr::",
+            {"Unknown": "the protobuf format has no unknowns (documented unimplemented!)",
+             "Error": "error nodes never reach the protobuf encoder (documented unimplemented!)"},
+            builder=bm, dec_ctor=expr_ctor, floor=17)
+    PORC = "cedar_policy_core::ast::policy::PrincipalOrResourceConstraint"
+    compose(chk, facts, rule, "PrincipalOrResourceConstraint",
+            PP + "From<&cedar_policy_core::ast::PrincipalOrResourceConstraint> for " + M + "PrincipalOrResourceConstraint>::from",
+            PP + "TryFrom<" + M + "PrincipalOrResourceConstraint> for cedar_policy_core::ast::PrincipalOrResourceConstraint>::try_from",
+            PORC, "ast::PrincipalOrResourceConstraint", M + "principal_or_resource_constraint::Data", M + "principal_or_resource_constraint::", {}, floor=5)
+    AC = "cedar_policy_core::ast::policy::ActionConstraint"
+    compose(chk, facts, rule, "ActionConstraint",
+            PP + "From<&cedar_policy_core::ast::ActionConstraint> for " + M + "ActionConstraint>::from",
+            PP + "TryFrom<" + M + "ActionConstraint> for cedar_policy_core::ast::ActionConstraint>::try_from",
+            AC, "ast::ActionConstraint", M + "action_constraint::Data", M + "action_constraint::",
+            {"ErrorConstraint": "error nodes never reach the protobuf encoder (documented unimplemented!)"}, floor=3)
+    ER = "cedar_policy_core::ast::policy::EntityReference"
+    compose(chk, facts, rule, "EntityReference",
+            PP + "From<&cedar_policy_core::ast::EntityReference> for " + M + "EntityReference>::from",
+            PP + "TryFrom<" + M + "EntityReference> for cedar_policy_core::ast::EntityReference>::try_from",
+            ER, "ast::EntityReference", M + "entity_reference::Data", M + "entity_reference::", {},
+            dec_ctor=lambda c, t: "S:euid" if c.endswith("ast::EntityReference::euid") or c.endswith("policy::EntityReference::euid") else None,
+            extra_ctors={"euid": ("EUID", {"0": [2]})}, floor=2)
